@@ -188,6 +188,8 @@ def shapes(k, nmax=3):
                     out.append(("n3s_%d%d" % (l1, l2), [("root",), ("add", 0, l1), ("add", 0, l2)]))  # siblings
     # index reuse: root, a at label 0, b at label k-1, remove a, add under b at label 0 (gets a's old index 1)
     out.append(("reuse", [("root",), ("add", 0, 0), ("add", 0, k - 1), ("remove", 0, 0), ("add", 2, 0)]))
+    # a node that got a child and lost it again: it must be a terminal again (leaf flag, terminal iterators)
+    out.append(("shrunk", [("root",), ("add", 0, k - 1), ("add", 1, 0), ("remove", 1, 0)]))
     return out
 
 
@@ -249,7 +251,22 @@ use affinitree::tree::iter::{Bfs, DfsEdge, DfsPre, TraversalMut};
 
 
 def harness(name, unwind, body):
-    return "#[kani::proof]\n#[kani::unwind(%d)]\nfn %s() {\n%s\n}\n\n" % (unwind, name, "\n".join("    " + b for b in body))
+    attr = "#[kani::should_panic]\n" if name.endswith("_should_panic") else ""
+    return "#[kani::proof]\n%s#[kani::unwind(%d)]\nfn %s() {\n%s\n}\n\n" % (attr, unwind, name, "\n".join("    " + b for b in body))
+
+
+def gen_c12_merge_multi(k):
+    """merge_child_with_parent on a non-root node with two children must not go through: the implementation asserts
+    num_children == 1 and panics before it touches anything.  #[kani::should_panic]: verified iff the call panics;
+    the body holds nothing but the call, so no later assertion can stand in for the expected panic."""
+    out = []
+    labels = (0, k - 1)
+    ops = [("root",), ("add", 0, k - 1), ("add", 1, labels[0]), ("add", 1, labels[1])]
+    pre = build_code(k, ops)
+    for l in labels:
+        out.append(("c12_k%d_n4_merge_two_children_l%d_should_panic" % (k, l), 6,
+                    list(pre) + ["let _ = t.merge_child_with_parent(1, %d);" % l]))
+    return out
 
 
 def gen_c12(k, sname, ops, thorough):
@@ -503,9 +520,13 @@ def select(prop, tier):
                             continue
                     hs.append(h)
             else:
+                if not thorough and sname == "shrunk":
+                    # quick tier: only the cheap arena-loop harnesses on the shrunk shape
+                    hs += [h for h in gen_c13(k, sname, ops, thorough, 2) if h[0].endswith(("_index_iters", "_depth")) or "_num_nodes_" in h[0]]
+                    continue
                 if not thorough and sname not in ("n3c_01", "n3s_01", "reuse"):
                     continue
-                if thorough and k == 3 and sname not in ("n3c_02", "n3c_21", "n3s_02", "n3s_21", "reuse", "n2_1"):
+                if thorough and k == 3 and sname not in ("n3c_02", "n3c_21", "n3s_02", "n3s_21", "reuse", "n2_1", "shrunk"):
                     continue
                 for h in gen_c13(k, sname, ops, thorough, 2):
                     # DfsEdge with two calls exhausts memory (62 GB after 15 min, measured) and three calls of any traversal
@@ -515,6 +536,8 @@ def select(prop, tier):
                     if not thorough and "_step2" in h[0]:
                         continue      # 160-320 s each and memory-hungry: thorough tier only
                     hs.append(h)
+        if prop == "C12" and (k == 2 or thorough):
+            hs += gen_c12_merge_multi(k)
     return hs
 
 
